@@ -198,6 +198,12 @@ func vc20directed() []string {
 	for _, frag := range []string{"\xef\xbf", "\xef", "\xef\xbf\xbd", "\xc2", "\xce", "\xf0\x9f\x98", "\xff", "\x80", "\xc0\xaf", "\xed\xa0\x80"} {
 		add("5"+frag, frag, "1h"+frag+"30m", frag+"5s", "5s"+frag, "5"+frag+"s", "1.5"+frag)
 	}
+	// decimal digits of other scripts (Arabic-Indic, extended Arabic-Indic, Devanagari, fullwidth, mathematical bold) and
+	// number characters that are no decimal digits (superscript, circled, Roman numeral): at the start of a term, after
+	// ASCII digits, in a fraction, alone - the grammar knows the ten ASCII digits
+	for _, dg := range []string{"\u0663", "\u06f5", "\u0967", "\uff11", "\U0001d7cf", "\u00b2", "\u2460", "\u2167", "\u0e53", "\u1047"} {
+		add("1"+dg+"s", dg+"1s", dg+"s", "2"+dg+"h", "-4"+dg+dg+"ms", "1h5"+dg+"m", "1."+dg+"s", "1.5"+dg+"s", "0"+dg+"d", "1"+dg+"d", "1"+dg, "12"+dg+"3ns", "1h"+dg+"m", "+7"+dg+"us", "1"+dg+".5s")
+	}
 	var un []string
 	for _, x := range out {
 		if y, err := strconv.Unquote(`"` + strings.ReplaceAll(x, `"`, `\"`) + `"`); err == nil {
@@ -275,6 +281,18 @@ func vc20genString(r *rand.Rand) string {
 			b[i] = "0123456789+-.dhmsnuµμ "[r.IntN(22)]
 		}
 		return string(b)
+	case 9: // a valid text with a digit of another script put next to (or in place of) one of its digits
+		if r.IntN(2) == 0 {
+			b := []rune(time.Duration(int64(r.Uint64()) >> uint(r.IntN(64))).String())
+			i := r.IntN(len(b))
+			dg := []rune("\u0660\u0669\u06f3\u0966\u096f\uff10\uff19\u09e7\u0be8\U0001d7d8\u00b9\u2075")[r.IntN(12)]
+			if r.IntN(2) == 0 && b[i] >= '0' && b[i] <= '9' {
+				b[i] = dg
+			} else {
+				b = append(b[:i], append([]rune{dg}, b[i:]...)...)
+			}
+			return string(b)
+		}
 	case 8: // arbitrary bytes
 		n := r.IntN(8)
 		b := make([]byte, n)
